@@ -9,8 +9,9 @@ TEXT = ("Benchstat.tla models benchstat as a relation: command-line arguments (p
         "measurements, the documented key orders and hence the baseline column, the keys each cell must warn about and the columns "
         "whose benchmark set differs from the baseline's. TLC checks, exhaustively over a small configuration, that the code's "
         "accumulation (Builder.Add / NonSingularFields / summarizeCol, transcribed) agrees with that declarative reading: Partition, "
-        "WarnExact, Defaults, DiffersExact. Every completed input of a smaller configuration and seeded -simulate behaviours over "
-        "the full menus are printed with the model's expectation and run through the REBUILT benchstat binary in csv and text "
+        "WarnExact, Defaults, DiffersExact. Every completed input of a smaller configuration, seeded -simulate behaviours over "
+        "the full menus and seeded behaviours of a deep generator (long histories: cells of up to ~200 samples merging "
+        "dozens of distinct configurations, tables of > 100 rows and > 100 distinct footnotes) are printed with the model's expectation and run through the REBUILT benchstat binary in csv and text "
         "format; tables, key lines, columns and rows in order, cell existence, n, warnings are compared with the model, and every "
         "centre / interval / delta / p is compared with the unit's assumption evaluated in-process on the MODEL's sample and "
         "the model's baseline cell; geomean cells with an independent evaluation over the model's membership.")
@@ -24,7 +25,13 @@ RULE = ("(M) exhaustive TLC run of Benchstat.tla over the mc constants (1-2 argu
         "Defaults, DiffersExact; (G) every completed input of the gen constants (one path, optional label, <=2 (quick) / <=3 "
         "(thorough) lines, 16 flag combinations) and seeded -simulate behaviours over the full menus (3 paths, labels, 2 config "
         "keys, 12 names, 3 units with assume metadata, 1-2 values per line, 5x5x7x7 projection menus, 7 filters, 3 alpha x 3 "
-        "confidence levels; each behaviour yields one case per -col menu entry), each run twice on the rebuilt benchstat binary "
+        "confidence levels; each behaviour yields one case per -col menu entry), plus seeded -simulate behaviours of the DEEP "
+        "generator Benchstat_gen_deep.tla (same relation and invariants; inputs built from pieces of history: bursts of 2..65 "
+        "further runs of a benchmark, sweeps of a configuration key over 2..36 settings, nested sweeps in which a second key "
+        "changes only after every 3/8/9/16/17/32 runs, round-robin passes, fans of 3..40 names, ladders of names with "
+        "pairwise distinct value ranges; 6 paths, 4 config keys x 26 values, 144 names, up to 3 values per line; quick 40 "
+        "behaviours x 7 -col entries of <= ~170 lines, and 8 x 7 'wide' cases whose tables have 98..131 rows each with a "
+        "warning of its own under an assume=exact unit), each run twice on the rebuilt benchstat binary "
         "(csv + text). distinct_nontrivial = distinct cases whose expected output has a cell with >= 2 measurements or a table "
         "with >= 2 columns.")
 
@@ -46,9 +53,25 @@ def run(ctx):
     r2 = ctx.tlc("Benchstat_gen.tla", "Benchstat_gen_sim.cfg", timeout=900 if q else 3000, simulate=per, depth=50,
                  workers=workers, label="simulate+gen")
     sim = vlib.dedupe(r2.printed_json("case"))
-    cases = vlib.dedupe(cases + sim)
-    if nex < 1000 or len(sim) < per * workers:
-        raise vlib.Infra("generator produced only %d exhaustive / %d simulated cases" % (nex, len(sim)))
+    # (G) deep: long inputs built from pieces of history (bursts of one benchmark up to 65 runs, plain and nested sweeps
+    # of configuration keys over up to 36 settings, interleaved passes, fans of up to 40 names, ladders; 6 files), and
+    # wide: tables with 98..131 rows that each carry a warning of their own (footnote numbers past 99)
+    perd = 5 if q else 24
+    r3 = ctx.tlc("Benchstat_gen_deep.tla", "Benchstat_gen_deep.cfg", timeout=900 if q else 3000, simulate=perd, depth=400,
+                 workers=workers, label="simulate+gen (deep)")
+    deep = vlib.dedupe(r3.printed_json("case"))
+    perw = 1 if q else 4
+    r4 = ctx.tlc("Benchstat_gen_deep.tla", "Benchstat_gen_wide.cfg", timeout=900 if q else 3000, simulate=perw, depth=400,
+                 workers=workers, label="simulate+gen (wide)")
+    wide = vlib.dedupe(r4.printed_json("case"))
+    cases = vlib.dedupe(cases + sim + deep + wide)
+    if nex < 1000 or len(sim) < per * workers or len(deep) < perd * workers or len(wide) < perw * workers:
+        raise vlib.Infra("generator produced only %d exhaustive / %d simulated / %d deep / %d wide cases" % (nex, len(sim), len(deep), len(wide)))
+    deep = deep + wide
+    ctx.cov["deep_cases"] = len(deep)
+    ctx.cov["deep_max_cell"] = max([len(ce["s"]) for c in deep for t in c["expect"]["tables"] for ce in t["cells"]] or [0])
+    ctx.cov["deep_max_rows"] = max([len(t["rows"]) for c in deep for t in c["expect"]["tables"]] or [0])
+    ctx.cov["deep_max_warned_cells_in_a_table"] = max([sum(1 for ce in t["cells"] if ce["vary"]) for c in deep for t in c["expect"]["tables"]] or [0])
     for c in cases:
         c.pop("tag", None)
     nontriv = sum(1 for c in cases
